@@ -197,6 +197,21 @@ class TG:
                     continue
                 els.append(p.name)
                 exp.append((p.name, 0, card, ('set', e) if p.multi else e))
+        # polymorphic elements: [is Sub].ptr for pointers that only a descendant has
+        subs = self.info.types[t]['descendants']
+        if subs and self.i(0, 2) == 0:
+            for _ in range(self.i(1, 2)):
+                sub = self.pick(subs)
+                own = [p for p in self.info.ptrs(sub).values()
+                       if p.name not in self.info.ptrs(t) and not p.is_link and self.ptr_e(p) is not None
+                       and p.name not in [e[0] for e in exp]]
+                if not own:
+                    continue
+                p = self.pick(own)
+                e = self.ptr_e(p)
+                els.append(f'[is {sub}].{p.name}')
+                exp.append((p.name, 0, None if p.computed else ('MANY' if p.multi else 'AT_MOST_ONE'),
+                            ('set', e) if p.multi else e))
         if via_link is not None and not via_link.computed:
             for lp, k in via_link.linkprops:
                 if isinstance(k, tuple) or self.i(0, 1):
